@@ -441,6 +441,8 @@ def chop(op, newid):
         return '(H_create %s %s %s %s)' % (cz(op[1]), TYP[op[2]], clist(op[3], carg), cz(newid))
     if k == 'copy':
         return '(H_copy %s %s)' % (cnat(op[1]), cz(op[2]))
+    if k in ('inherit', 'spawn'):
+        return '(H_inherit %s %s)' % (cnat(op[1]), cz(op[2]))
     if k == 'stale':
         return '(H_stale %s %s)' % (cz(op[1]), cz(op[2]))
     if k == 'drop':
@@ -457,7 +459,7 @@ def ccobs(op, o):
         return 'CO_noop'
     if kind == 'create':
         return {'ok': 'CO_ok'}.get(k) or ('(CO_reply (R_traceback %s))' % cexn(o[1]) if k == 'fail' else 'CO_lost')
-    if kind in ('copy', 'stale', 'drop', 'batch'):
+    if kind in ('copy', 'inherit', 'spawn', 'stale', 'drop', 'batch'):
         return {'ok': 'CO_ok'}.get(k) or ('(CO_fail %s)' % cexn(o[1]) if k == 'fail' else 'CO_lost')
     if k == 'ret':
         return '(CO_reply (R_return %s))' % cval(o[1])
@@ -507,7 +509,7 @@ def gen_client_case(rng):
                 kinds.append((typ, True))
         elif r < 0.34:
             k = rng.randint(0, n)
-            case.append(['copy', k, rng.randint(10, 13)])
+            case.append([rng.choice(['copy', 'copy', 'inherit']), k, rng.randint(10, 13)])
             if k < n:
                 kinds.append((kinds[k][0], False))
         elif r < 0.54:
@@ -553,6 +555,10 @@ BOUNDARY_CLIENT = [
      ['call', 0, '__str__', []], ['call', 0, '#GETVALUE', []], ['create', 10, 'nosuch', []],
      ['create', 10, 'list', [['z', 3]]]],
 ]
+# a proxy handed to a child inside the Process object (RebuildProxy incref=False + after-fork hook)
+BOUNDARY_CLIENT.append(
+    [['create', 10, 'list', [['l', [1, 2]]]], ['inherit', 0, 11], ['drop', 0], ['call', 0, 'append', [['z', 3]]],
+     ['call', 0, '#GETVALUE', []], ['inherit', 0, 12], ['drop', 0], ['call', 0, '__len__', []], ['drop', 0]])
 # a proxy-returning method through a proxy that was passed on (unpickled): AttributeError + leak
 LEAK_CASE = [['create', 10, 'Shelf', [['l', [7]]]], ['copy', 0, 11], ['call', 1, 'clone', []],
              ['drop', 1], ['drop', 0]]
@@ -630,6 +636,7 @@ def gen_procs_case(rng):
     kinds = []
     pids = [10, 11, 12]
     forked = []
+    spawned = 0
     for _ in range(rng.randint(6, 18)):
         r = rng.random()
         n = len(owners)
@@ -666,6 +673,14 @@ def gen_procs_case(rng):
             kinds[:] = [kinds[i] for i in keep]
         elif r < 0.66:
             case.append(['intruder', rng.choice(['wrong_key', 'no_key'])])
+        elif r < 0.72 and spawned < 2 and 10 in owners:
+            k = rng.choice([i for i in range(n) if owners[i] == 10])
+            pid = 15 + spawned
+            spawned += 1
+            case.append(['spawn', k, pid])
+            owners.append(pid)
+            kinds.append((kinds[k][0], False))
+            forked.append(pid)          # may exit like a forked one
         else:
             k = rng.randrange(n)
             kind = kinds[k][0]
@@ -694,6 +709,16 @@ BOUNDARY_PROCS = [
 ]
 
 
+# the spawn scenario of the quick tier: the child got the proxy as a Process argument, the parent
+# drops its own, the child appends and reads back, the referent stays until the child exits
+SPAWN_CASE = [['create', 10, 'list', [['l', [1, 2]]]], ['spawn', 0, 15], ['drop', 0],
+              ['call', 0, 'append', [['z', 3]]], ['call', 0, '#GETVALUE', []], ['exit', 15]]
+BOUNDARY_PROCS.append(SPAWN_CASE)
+BOUNDARY_PROCS.append([['create', 10, 'dict', [['d', [[1, 2]]]]], ['spawn', 0, 15], ['spawn', 0, 16], ['drop', 0],
+                       ['call', 1, '__setitem__', [['z', 5], ['z', 6]]], ['exit', 16], ['call', 0, 'items', []],
+                       ['exit', 15]])
+
+
 def procs_to_model(case, outs):
     """fork / exit / intruder become batches of model operations (owners come from the driver)"""
     mcase = []
@@ -711,9 +736,9 @@ def procs_to_model(case, outs):
     return mcase
 
 
-def correspond_procs(res, n):
+def correspond_procs(res, n, only=None):
     rng = random.Random(res.seed * 31337 + 22)
-    cases = BOUNDARY_PROCS + [gen_procs_case(rng) for _ in range(n)]
+    cases = only if only is not None else BOUNDARY_PROCS + [gen_procs_case(rng) for _ in range(n)]
     outs = []
     for ch in core.chunks(cases, 25):
         outs += core.run_driver('mgr_driver.py', dict(mode='procs', cases=ch), timeout=1500)
@@ -764,8 +789,7 @@ def run(res):
         n = max(n, 1500)
     late = correspond_server(res, n)
     late += correspond_client(res, 40 if res.tier == 'quick' and not res.broken else min(n // 3, 800))
-    if res.tier != 'quick':
-        late += correspond_procs(res, 25)
+    late += correspond_procs(res, 25) if res.tier != 'quick' else correspond_procs(res, 0, only=[SPAWN_CASE])
     # defects of the unchanged tree (see docs/C20.md): one alarm per signature, smallest witness,
     # after everything else so that a new problem is reported first
     best = {}
